@@ -98,6 +98,10 @@ func c04Check(c C04Case, cx *h.Ctx) *h.Failure {
 	if !bytes.Equal(app, append(append([]byte(nil), prefix...), lib...)) {
 		return h.Failf("wkb/append", "AppendWKB(prefix) != prefix||AsBinary() for %s", model)
 	}
+	// appending again to the result gives prefix || enc || enc (no state carried over from the first call)
+	if app2 := g.AppendWKB(app); !bytes.Equal(app2, append(append(append([]byte(nil), prefix...), lib...), lib...)) {
+		return h.Failf("wkb/append", "AppendWKB applied twice != prefix||AsBinary()||AsBinary() for %s", model)
+	}
 	// ... also when the destination has spare capacity (exactly enough, one byte short, plenty): the prefix is
 	// untouched, the encoding follows it, and bytes of the backing array beyond the result are not written
 	for _, spare := range []int{len(lib), len(lib) - 1, len(lib) + 57} {
